@@ -73,7 +73,7 @@ func init() {
 		}
 		return "ok " + toHex(buf.Bytes()) + " " + toHex([]byte(digest))
 	})
-	dec := func(args []string, sizes []int, withCounts bool) string {
+	dec := func(args []string, sizes []int, withCounts bool, copyRest bool) string {
 		enc := miceEnc(args[0])
 		mx, err := strconv.ParseUint(args[1], 10, 64)
 		if err != nil {
@@ -93,6 +93,16 @@ func init() {
 			n := 4096
 			if i < len(sizes) {
 				n = sizes[i]
+			} else if copyRest {
+				// drain what is left the way most callers do: io.Copy (which prefers the source's WriteTo, if it has one)
+				var rest bytes.Buffer
+				_, err := io.Copy(struct{ io.Writer }{&rest}, r)
+				out = append(out, rest.Bytes()...)
+				final = err
+				if err == nil {
+					final = io.EOF
+				}
+				break
 			}
 			buf := make([]byte, n)
 			k, err := r.Read(buf)
@@ -113,7 +123,7 @@ func init() {
 		}
 		return fmt.Sprintf("%s %s", toHex(out), miceStatus(final))
 	}
-	miceAll = func(args []string) string { return dec(args, nil, false) }
+	miceAll = func(args []string) string { return dec(args, nil, false, false) }
 	register("mice.all", miceAll)
 	register("mice.dec", func(args []string) string {
 		sizes := []int{}
@@ -126,6 +136,19 @@ func init() {
 				sizes = append(sizes, n)
 			}
 		}
-		return dec(args, sizes, true)
+		return dec(args, sizes, true, false)
+	})
+	register("mice.dec.copy", func(args []string) string {
+		sizes := []int{}
+		if args[4] != "-" {
+			for _, s := range strings.Split(args[4], ",") {
+				n, err := strconv.Atoi(s)
+				if err != nil {
+					panic("bad-op")
+				}
+				sizes = append(sizes, n)
+			}
+		}
+		return dec(args, sizes, true, true)
 	})
 }
